@@ -14,6 +14,8 @@ PRESETS_WITH_PRE = ["standard", "standard-no-context", "standard-context", "stan
 
 PRESETS_BASE = ["standard-base", "standard-base-context"]
 KNOWN_BASE = "base-presets-print-the-next-release-itself"
+PRESETS_NO_POST = ["standard-base", "standard-base-context", "standard-base-prerelease", "standard-base-prerelease-context"]
+KNOWN_NOPOST = "presets-without-post-do-not-grow-with-commits"
 
 
 def out_of(r):
@@ -117,7 +119,7 @@ def run_check(tier, seed):
         branch = rng.choice(["main", "develop", "feature/x", "feature/12", "é", "hotfix/a"])
         # presets that print the post component (the smart ones do whenever distance > 0)
         preset = rng.choice(["standard", "standard-no-context", "standard-context", "standard-base-prerelease-post", "standard-base-prerelease-post-dev",
-                             "standard-base-prerelease-post-context", None])
+                             "standard-base-prerelease-post-context", None]) if rng.random() < 0.9 else rng.choice(PRESETS_NO_POST)
         ds = sorted(rng.sample([1, 2, 3, 9, 10, 11, 99, 100, 4000], 3))
         tagk = rng.choice([f"{X}.{Y}.{Z}", f"{X}.{Y}.{Z}-rc.2", f"{X}.{Y}.{Z}-alpha.1.post.3"])
         g = []
@@ -125,13 +127,16 @@ def run_check(tier, seed):
             a = base_args(tagk, "semver", branch, None, "commit", 5, preset, out) + [f"--distance={d}"]
             g.append(len(cases))
             cases.append(flw("text", None, a, now))
-        meta.append((g, out))
+        meta.append((g, out, preset))
     res = correspond(run, "commit_mode_growing_distance", cases, **kw)
-    for g, out in meta:
+    for g, out, preset in meta:
         outs = [out_of(res[i][1]) for i in g]
         if None in outs:
             continue
         for a, b in zip(outs, outs[1:]):
+            if preset in PRESETS_NO_POST and not lt(out, a, b) and not lt(out, b, a):
+                run.known_hits[KNOWN_NOPOST] += 1       # the distance is not shown (or only as build metadata): equal precedence (listed finding)
+                break
             if not lt(out, a, b):
                 viol("commit_mode_growing_distance", "adding commits must yield a strictly greater version", {"outputs": outs, "requests": [describe(res[i][0])["argv"] for i in g]})
                 break
